@@ -144,6 +144,31 @@ func checkC06(c *Ctx, r *Result, tier string) {
 	r.Extra["reachable_functions"] = len(funcs)
 	r.Floor("C06-reach", len(funcs), 300)
 
+	// reviewed entries are keyed by construct (function, kind, operand expression). A rewrite that
+	// only changes how the operand is spelled (a helper call instead of a local variable) must not
+	// void the entry: when the exact key is gone, an entry is matched by (function, kind, asserted
+	// type) if that is unique among both the entries and the open obligations of the function.
+	normKey := func(site string) string {
+		i := strings.Index(site, "#assert:")
+		if i < 0 {
+			return ""
+		}
+		j := strings.LastIndex(site, ".(")
+		if j < i {
+			return ""
+		}
+		k := strings.LastIndex(site, "#")
+		if k < j {
+			k = len(site)
+		}
+		return site[:i] + "#assert" + site[j:k]
+	}
+	reviewedByNorm := map[string][]string{}
+	for site := range c06Reviewed {
+		if nk := normKey(site); nk != "" {
+			reviewedByNorm[nk] = append(reviewedByNorm[nk], site)
+		}
+	}
 	premiseFails := c06Premises(c, oc)
 	r.Extra["reviewed_premises_failing"] = premiseFails
 	perKind := map[string][2]int{}
@@ -154,6 +179,34 @@ func checkC06(c *Ctx, r *Result, tier string) {
 		obs := oc.enumerate(fn, nil)
 		obs = append(obs, oc.tokenObligations(fn)...)
 		sortObligations(obs)
+		openByNorm := map[string]int{}
+		for _, ob := range obs {
+			if !ob.Discharged && c06Reviewed[ob.Site] == "" {
+				if nk := normKey(ob.Site); nk != "" {
+					openByNorm[nk]++
+				}
+			}
+		}
+		for i := range obs {
+			ob := &obs[i]
+			if ob.Discharged || c06Reviewed[ob.Site] != "" {
+				continue
+			}
+			nk := normKey(ob.Site)
+			if nk == "" || openByNorm[nk] != 1 || len(reviewedByNorm[nk]) != 1 || usedReviewed[reviewedByNorm[nk][0]] {
+				continue
+			}
+			// the entry's exact construct must be gone from this function
+			still := false
+			for _, o2 := range obs {
+				if o2.Site == reviewedByNorm[nk][0] {
+					still = true
+				}
+			}
+			if !still {
+				ob.Site = reviewedByNorm[nk][0]
+			}
+		}
 		for _, ob := range obs {
 			r.Obligations++
 			nObl++
